@@ -419,7 +419,7 @@ func c13Scope(c *mon.Ctx, r *mon.Rand) {
 	}
 	prefix := r.Pick("", "app")
 	so := m3.DefaultSanitizerOpts
-	root, closer := tally.VerifNewRootScope(tally.ScopeOptions{CachedReporter: env.Rep, Prefix: prefix, Tags: rootTags, SanitizeOptions: &so, OmitCardinalityMetrics: r.Bool()}, interval, uint(r.Range(1, 4)))
+	root, closer := vNewRoot(tally.ScopeOptions{CachedReporter: env.Rep, Prefix: prefix, Tags: rootTags, SanitizeOptions: &so, OmitCardinalityMetrics: r.Bool()}, interval, uint(r.Range(0, 4)))
 	nW := r.Range(1, 6)
 	iters := r.Range(50, 1500)
 	desc := map[string]interface{}{"mode": "scope", "protocol": protoName(proto), "queue": opts.MaxQueueSize, "max_packet": opts.MaxPacketSizeBytes, "interval_us": interval.Microseconds(), "workers": nW, "iterations": iters, "prefix": prefix}
